@@ -105,10 +105,10 @@ fn main() {
             }
             // inherited / unresolved consistency
             let parent_scope: BTreeMap<usize, usize> = match xot.parent(x) { Some(p) => bindings(&xot, &reg, p), None => BTreeMap::new() };
-            let want_inh: Vec<(usize, usize)> = parent_scope.iter().filter(|(_, ns)| unres.contains(ns)).map(|(p, ns)| (*p, *ns)).collect();
+            let own_prefixes: Vec<usize> = if xot.is_element(x) { xot.namespaces(x).keys().map(|q| reg.prefix_idx(q)).collect() } else { vec![] };
+            let want_inh: Vec<(usize, usize)> = parent_scope.iter().filter(|(p, ns)| unres.contains(ns) && !own_prefixes.contains(p)).map(|(p, ns)| (*p, *ns)).collect();
             if inh != want_inh { out.fail(&case, "inherited-prefixes", &format!("node {}: inherited_prefixes = {:?}, in-scope bindings of the parent for unresolved namespaces = {:?}", i, inh, want_inh)); }
-            // (known deviations, each a class of its own) a prefix the node itself declares is not inherited; a name in no
-            // namespace needs no prefix; the xml prefix is always bound
+            // a prefix the node itself declares is not inherited; a name in no namespace needs no prefix; the xml prefix is always bound
             if xot.is_element(x) {
                 for (p, _) in &inh {
                     if xot.namespaces(x).keys().any(|q| reg.prefix_idx(q) == *p) {
